@@ -21,7 +21,7 @@ VERIF = os.path.dirname(os.path.dirname(os.path.abspath(__file__)))
 REPO = os.environ.get('LCVERIF_REPO', '/repo')
 CACHE = os.path.join(VERIF, '.cache')
 INPUTS = ['src/confuse.c', 'src/confuse.h', 'src/compat.h', 'src/lexer.l']
-STAGE_VERSION = '3'
+STAGE_VERSION = '3'  # bump when the IR pipeline changes
 
 
 class StageError(Exception):
